@@ -1,11 +1,13 @@
 """C15 — counters and cross-references print the right numbers."""
 import json
+import math
 import time
 
-from extract import counter_styles, first_letter_table
+from extract import counter_styles, first_letter_table, list_hints
 from harness import c15_desc as DV
 from harness import c15_dom as D
 from harness import c15_judges as J
+from harness import c15_lists as LS
 from harness import c15_pages as P
 from harness import c15_spec as SP
 from harness import c15_styles as S
@@ -40,8 +42,6 @@ def tame(cs):
         system = desc['system']
         if system and system[0] == 'extends' and (
                 desc['symbols'] is not None or desc['additive_symbols'] is not None):
-            return False
-        if isinstance(desc['range'], tuple) and 'auto' in desc['range']:
             return False
     for name in cs:
         seen = set()
@@ -132,6 +132,10 @@ def toc_problems(gen, document, passes):
                                 f'{targets[target] + 1} ({expected!r})')
         elif text:
             problems.append(f'entry {href} has no target but prints {text!r}')
+    for href, text in T.observe_pages_refs(document):
+        if href[1:] in targets and text.strip() != str(n_pages):
+            problems.append(f'entry {href} prints target-counter(…, pages) = {text.strip()!r}, the document has '
+                            f'{n_pages} pages')
     for index, text in marks:
         if text != f'{index + 1}-{n_pages}':
             problems.append(f'page {index + 1} of {n_pages} prints page/pages {text!r}')
@@ -149,9 +153,9 @@ OSCILLATION_HTML = (
 
 class C15(PropCheck):
     id = 'C15'
-    extractors = (counter_styles.generate, first_letter_table.generate)
+    extractors = (counter_styles.generate, first_letter_table.generate, list_hints.generate)
     modules = ('WpModel.Props.C15', 'WpModel.Props.C15Pages', 'WpModel.Props.C15Desc', 'WpModel.Props.C15Text',
-               'WpModel.Witness.C15')
+               'WpModel.Props.C15Lists', 'WpModel.Props.C15PagesTotal', 'WpModel.Witness.C15')
     trusted_base = (
         'modelled, not verified: css/validation/descriptors.py (counter-style validators), css/targets.py '
         '(cache_target_page_counters, lookup/store/check_pending), layout/page.py (counter section of make_page), '
@@ -161,7 +165,10 @@ class C15(PropCheck):
         'Gen/CounterStyles.lean is the dictionary the real CSS parser and descriptor validators build from '
         'html5_ua.css (dumped each run)',
         'the abstract element tree of the DOM correspondence is read from the real computed styles (style_for), '
-        'so the cascade is outside this property\'s tie (C06)',
+        'so the cascade is outside this property\'s tie (C06) — except for list documents, where the counter '
+        'declarations are derived by the model from the raw start / value attributes (list-attributes section)',
+        'Gen/ListHints.lean: AST of the ol / li branches of find_style_attributes (shape checked strictly) and the '
+        'computed counter declarations of ol, ul, li, div under the real UA sheet',
     )
     assumptions = (
         'the style table contains the UA `decimal` (HTML._ua_counter_style always installs it): an author-defined '
@@ -186,6 +193,7 @@ class C15(PropCheck):
             return line
         S.rv_line = rv_line
         try:
+            self._fixed_regressions(run)
             self._styles_ua(run)
             self._styles_custom(run)
             self._update_counters(run)
@@ -193,10 +201,70 @@ class C15(PropCheck):
             self._toc(run)
         finally:
             S.rv_line = original
+        self._lists(run)
         self._descriptors(run)
         self._target_text(run)
         self._cache_target(run)
         self._branches(run)
+
+    def _fixed_regressions(self, run):
+        """Corpus first: the inputs of the repaired findings (`fixed:` lines), through the ordinary pipelines.
+        A `fixed:` entry suppresses nothing: if the defect comes back the case disagrees with the model (which
+        mirrors the repaired code) and `judge` reports the corpus input."""
+        sec = run.section(
+            'fixed-regressions',
+            'corpus/C15 inputs of the repaired findings: the @counter-style sheets through the real parser + '
+            'render_value / render_marker, the hand-built dictionary with an empty symbols tuple, the documents through '
+            'build_formatting_structure (dom) and through layout_document with the make_page recorder (mp); '
+            'non-trivial = all')
+        for fid, values, name in (('range-auto-crash', range(-3, 8), 'x'),
+                                  ('extends-own-symbols-loses-sign', (-50, -5, -1, 0, 1, 5, 27), 'a'),
+                                  ('extends-empty-symbols-index-error', (-7, -1, 0, 1, 7, 10), 'e')):
+            html = corpus_html(fid)
+            css = html[html.index('<style>') + 7:html.index('</style>')]
+            cs = S.parse_styles(css, 'ua')
+            custom = S.custom_part(cs, 'ua')
+            meta = {'kind': 'fixed', 'id': fid}
+            for v in values:
+                sec.add(S.rv_line('ua', custom, v, name), S.out_text(lambda: cs.render_value(v, name)), meta=meta,
+                        nontrivial=True, tags=[fid])
+                sec.add(S.rm_line('ua', custom, v, name), S.out_text(lambda: cs.render_marker(name, v)), meta=meta,
+                        nontrivial=True, tags=[fid])
+            case = D.dom_case(html)
+            if case is not None:
+                sec.add(case['line'], case['impl'], meta=meta, nontrivial=True, tags=[fid, 'dom'])
+        # the dictionary `symbols: ;` used to register (an empty tuple): no longer reachable through the parser
+        # (d71ddd0), still a legal argument of render_value
+        for system in ('decimal', 'lower-alpha', 'lower-roman', 'disc'):
+            for symbols in ((), (('string', 'x'),)):
+                cs = S.parse_styles('', 'ua')
+                cs['e'] = dict(dict.fromkeys(S.FIELDS), system=('extends', system, None), symbols=symbols,
+                               range=((-math.inf, math.inf),))
+                custom = S.custom_part(cs, 'ua')
+                for v in (-12, -1, 0, 1, 2, 30):
+                    sec.add(S.rv_line('ua', custom, v, 'e'), S.out_text(lambda: cs.render_value(v, 'e')),
+                            meta={'kind': 'fixed', 'id': 'extends-own-symbols-loses-sign' if v < 0 else
+                                  'extends-empty-symbols-index-error', 'direct': [system, len(symbols), v]},
+                            nontrivial=True, tags=['direct-dict'])
+        fid = 'target-counter-pages-forward-crash'
+        html = corpus_html(fid)
+        pages_rec = P.PageRecorder()
+        meta = {'kind': 'fixed', 'id': fid}
+        try:
+            with pages_rec.installed():
+                document = docs.render(html)
+            after = all_texts(document)
+            outcome = 'ok ' + S.enc(str(len(document.pages)))
+        except Exception as exc:  # noqa: BLE001
+            after, outcome = [], f'err:{type(exc).__name__}'
+        for line, out, tags in pages_rec.cases:
+            sec.add(line, out, meta=meta, nontrivial=True, tags=[fid] + tags)
+        # the printed page count: the model's render_value of the number of pages, against what ::after shows
+        n_pages = outcome[3:] if outcome.startswith('ok ') else None
+        printed = after[after.index('e') + 1] if 'e' in after[:-1] else None
+        sec.add(S.rv_line('ua', {}, int(S.dec(n_pages)) if n_pages else 0, 'decimal'),
+                'ok ' + S.enc(printed) if printed is not None else outcome, meta=meta, nontrivial=True,
+                tags=[fid, 'printed'])
 
     def _styles_ua(self, run):
         ua = S.ua_styles()
@@ -260,6 +328,22 @@ class C15(PropCheck):
                                            [run.rng.choice(S.NAMES), 'decimal'], [name] if isinstance(name, str) else []])
                     sec.add(S.rc_line(base, custom, name, prev), S.rc_out(cs, name, prev),
                             meta=dict(meta, kind='rc', prev=prev), nontrivial=bool(custom), tags=['resolve'])
+        # steps 4-5 systematically: every sign-using system x negative prefix/suffix lengths x pad lengths x a
+        # window of values around 0 (explicit infinite range so that negative values stay in range)
+        grid = {'numeric': 'symbols: "0" "1" "2"', 'alphabetic': 'symbols: a b', 'symbolic': 'symbols: "*" "+"',
+                'additive': 'additive-symbols: 5 V, 1 I, 0 N', 'cyclic': 'symbols: p q', 'fixed -2': 'symbols: s t u v w'}
+        for system, symbols in grid.items():
+            for negative in ('"-"', '"(" ")"', '"minus " ""', '"--" "+"', '"" ""', '"" "]"', None):
+                for pad in ('0 "0"', '3 "0"', '5 x', '7 "ab"', '4 ""', None):
+                    css = (f'@counter-style gr {{ system: {system}; {symbols}; range: infinite infinite'
+                           + (f'; negative: {negative}' if negative else '') + (f'; pad: {pad}' if pad else '') + ' }')
+                    cs = S.parse_styles(css, 'ua')
+                    custom = S.custom_part(cs, 'ua')
+                    for v in (range(-12, 4) if run.thorough else (-12, -7, -6, -5, -2, -1, 0, 1, 3)):
+                        out = S.out_text(lambda: cs.render_value(v, 'gr'))
+                        sec.add(S.rv_line('ua', custom, v, 'gr'), out,
+                                meta={'kind': 'rv', 'base': 'ua', 'css': css, 'value': v, 'name': 'gr'},
+                                nontrivial=out != 'ok ' + S.enc(str(v)), tags=['pad-negative-grid', system.split(' ')[0]])
         # anonymous styles, every system, a window of values
         empty = S.parse_styles('', 'ua')
         for name in [('string', '*'), ('string', ''), ('symbols()', ('cyclic', 'a', 'b', 'c')),
@@ -340,14 +424,20 @@ class C15(PropCheck):
         for i in range(run.n(160, 700)):
             gen = T.gen_toc(run.rng, run.n(20, 60) if i % 3 else 6)
             recorder, pages_rec = T.Recorder(), P.PageRecorder()
-            if gen['n'] <= 24:
-                with recorder.installed(), pages_rec.installed():
-                    document = docs.render(gen['html'])
-            else:       # the state snapshots of every make_page call grow with entries x pages x passes
-                with recorder.installed():
-                    document = docs.render(gen['html'])
-            passes = recorder.passes
             meta_toc = {'kind': 'toc', 'html': gen['html'], 'style': gen['style']}
+            try:
+                if gen['n'] <= 24:
+                    with recorder.installed(), pages_rec.installed():
+                        document = docs.render(gen['html'])
+                else:       # the state snapshots of every make_page call grow with entries x pages x passes
+                    with recorder.installed():
+                        document = docs.render(gen['html'])
+            except Exception as exc:  # noqa: BLE001 - an exception of layout_document is an outcome, never a pass count
+                trace = [[p['pages'], [[cc, pw] for cc, pw in p['flags']]] for p in recorder.passes]
+                loop.add(sx.line('loop', MAX_LOOPS, trace), f'err:{type(exc).__name__}', meta=meta_toc,
+                         nontrivial=True, tags=['raised'])
+                continue
+            passes = recorder.passes
             for line, out, tags in pages_rec.cases:
                 pages_sec.add(line, out, meta=meta_toc, nontrivial='lookup' in tags or 'anchor' in tags, tags=tags)
             for line, out in pages_rec.entries:
@@ -380,6 +470,10 @@ class C15(PropCheck):
                     labels_sec.add(S.rv_line('ua', {}, 0, ('string', '')), 'ok ' + S.enc(text),
                                    meta={'kind': 'toc', 'html': gen['html'], 'style': gen['style']},
                                    nontrivial=False, tags=['undefined-target'])
+            for href, text in T.observe_pages_refs(document):
+                if href[1:] in targets:
+                    labels_sec.add(S.rv_line('ua', {}, n_pages, 'decimal'), 'ok ' + S.enc(text.strip()),
+                                   meta=meta_toc, nontrivial=True, tags=['target-pages'])
             for index, text in marks:
                 page_s, _, pages_s = text.partition('-')
                 labels_sec.add(S.rv_line('ua', {}, index + 1, 'decimal'), 'ok ' + S.enc(page_s),
@@ -388,6 +482,46 @@ class C15(PropCheck):
                                meta={'kind': 'toc', 'html': gen['html'], 'style': gen['style']}, tags=['pages'])
         run.extra['toc_runs_hitting_max_loops'] = nonconverged
 
+
+    def _lists(self, run):
+        sec = run.section(
+            'list-attributes',
+            'build_formatting_structure (real HTML5 UA sheet, presentational hints) on generated nested ol / ul / li '
+            'documents with start / value attributes (integers in every spelling incl. 0, negative, signed, padded; '
+            'non-integers): the list tree with the RAW attribute tokens goes to the model, which derives the '
+            'counter declarations itself (find_style_attributes + counter() + cascade) -> texts of all markers and '
+            'li::after boxes; non-trivial = some list has a start or value attribute')
+        hints = run.section(
+            'list-hints',
+            'computed display / counter-reset / counter-set / counter-increment of every ol and li of those '
+            'documents against Model/ListHints.applyHint on the raw attribute; non-trivial = attribute present')
+        seen = set()
+        skipped = 0
+        for _ in range(run.n(350, 4000)):
+            html = LS.gen_document(run.rng)
+            case = LS.list_case(html)
+            if case is None:
+                skipped += 1
+                continue
+            tags = ['start' if 'start="' in html else 'no-start', 'value' if 'value="' in html else 'no-value']
+            if 'start="0"' in html or 'value="0"' in html:
+                tags.append('zero')
+            sec.add(case['line'], case['impl'], meta={'kind': 'lists', 'html': html},
+                    nontrivial='start="' in html or 'value="' in html, tags=tags)
+            for line, out, raw in case['hints']:
+                if line not in seen:
+                    seen.add(line)
+                    hints.add(line, out, meta={'kind': 'lists', 'html': html, 'attr': raw}, nontrivial=bool(raw),
+                              tags=[line.split(' ')[1]])
+        run.extra['lists_outside_model'] = skipped
+        cprop = run.section(
+            'counter-validator',
+            'validation.properties.counter(tokens, default_integer) (counter-reset / -set / -increment) on real '
+            'tinycss2 tokens of plausible values and token soup; non-trivial = accepted')
+        for _ in range(run.n(1500, 15000)):
+            line, out, text = LS.cprop_case(run.rng)
+            cprop.add(line, out, meta={'kind': 'cprop', 'text': text}, nontrivial=out.startswith('('),
+                      tags=['accepted' if out.startswith('(') else out.split(' ')[0]])
 
     def _descriptors(self, run):
         sec = run.section(
@@ -448,8 +582,7 @@ class C15(PropCheck):
                     for k in ('initial', 'out-of-range->fallback')]
         expected += ['fixed:unrepresentable->fallback', 'additive:unrepresentable->fallback',
                      'unknown-style->decimal', 'unknown-style->empty', 'extends-unresolved->decimal',
-                     'alphabetic:too-few-symbols->decimal', 'numeric:too-few-symbols->decimal', 'numeric:err:IndexError',
-                     'cyclic:range-ValueError']
+                     'alphabetic:too-few-symbols->decimal', 'numeric:too-few-symbols->decimal']
         run.extra['render_value_branches'] = dict(hist.most_common())
         run.extra['render_value_branches_never_hit'] = [b for b in expected if not any(h.startswith(b) for h in hist)]
 
@@ -458,12 +591,16 @@ class C15(PropCheck):
     def judge(self, d):
         meta = d.get('meta') or {}
         kind = meta.get('kind')
+        if kind == 'fixed':
+            return self._judge_fixed(meta)
         if kind in ('rv', 'rm'):
             return self._judge_style(meta)
         if kind == 'upd':
             return self._judge_upd(meta)
         if kind == 'dom':
             return self._judge_dom(meta['html'])
+        if kind == 'lists':
+            return LS.list_clause(meta['html'])
         if kind == 'toc':
             return self._judge_toc(meta['html'], meta['style'])
         if kind == 'tt':
@@ -472,6 +609,30 @@ class C15(PropCheck):
             return J.cache_target_clause(meta['line'])
         if kind == 'rule':
             return J.rule_clause(meta['css'])
+        return None
+
+    @staticmethod
+    def _judge_fixed(meta):
+        """A repaired defect is back when its former finding replay fails again on the corpus input."""
+        fid = meta['id']
+        if 'direct' in meta:
+            system, n_symbols, value = meta['direct']
+            cs = S.parse_styles('', 'ua')
+            cs['e'] = dict(dict.fromkeys(S.FIELDS), system=('extends', system, None),
+                           symbols=(('string', 'x'),) * n_symbols, range=((-math.inf, math.inf),))
+            out = S.out_text(lambda: cs.render_value(value, 'e'))
+            want = 'ok ' + S.enc(str(value))
+            if system != 'disc' and out != want:
+                shown = S.dec(out[3:]) if out.startswith('ok ') else out
+                return (f'repaired defect {fid} is back: a style extending {system} with {n_symbols} own symbol(s) '
+                        f'renders {value} as {shown!r}, the decimal fallback gives {str(value)!r}')
+            return None
+        try:
+            back = FIXED_REPLAYS[fid]()
+        except Exception as exc:  # noqa: BLE001
+            return f'repaired defect {fid}: its corpus input raises {type(exc).__name__}: {exc}'
+        if back:
+            return f'repaired defect {fid} is back on its corpus input (corpus/C15/{fid}.json): {back}'
         return None
 
     @staticmethod
@@ -504,6 +665,11 @@ class C15(PropCheck):
             return None  # not a reachable state
         style = {k: (tuple(tuple(p) for p in v) if isinstance(v, list) else v) for k, v in meta['style'].items()}
         style['display'] = tuple(style['display'])
+        effective = style['counter_increment']
+        if effective == 'auto':
+            effective = (('list-item', 1),) if 'list-item' in style['display'] else ()
+        if {n for n, _ in style['counter_set']} & {n for n, _ in effective}:
+            return None  # known finding counter-set-before-increment: the clause below follows css-lists-3 order
         expected = {k: list(v) for k, v in values.items()}
         current = set(scopes[-1])
         for name, value in style['counter_reset']:
@@ -514,7 +680,7 @@ class C15(PropCheck):
         increments = style['counter_increment']
         if increments == 'auto':
             increments = (('list-item', 1),) if 'list-item' in style['display'] else ()
-        for pairs, op in ((style['counter_set'], lambda old, v: v), (increments, lambda old, v: old + v)):
+        for pairs, op in ((increments, lambda old, v: old + v), (style['counter_set'], lambda old, v: v)):
             for name, value in pairs:
                 if not expected.get(name):
                     expected[name] = [0]
@@ -530,6 +696,8 @@ class C15(PropCheck):
         case = D.dom_case(html)
         if case is None or not tame(case['styles']):
             return None
+        if SP.sets_and_increments(case['tree']):
+            return None  # known finding counter-set-before-increment
         if case['obs'] is None:
             return f'build_formatting_structure raised {case["impl"]}'
         expected = SP.reference_texts(case['styles'], case['tree'])
@@ -560,7 +728,10 @@ class C15(PropCheck):
 
     @staticmethod
     def _judge_toc(html, style):
-        document, passes = T.render_recorded(html)
+        try:
+            document, passes = T.render_recorded(html)
+        except Exception as exc:  # noqa: BLE001
+            return f'layout_document raised {type(exc).__name__}: {exc}'
         if not T.converged(passes) and len(passes) >= MAX_LOOPS:
             return None  # known limitation: see the finding page-fixpoint-oscillation
         problems = toc_problems({'style': style}, document, passes)
@@ -614,7 +785,20 @@ class C15(PropCheck):
                 what = self._judge_style(meta)
                 if what and add(what, {'meta': meta}, css):
                     return found
-        # 4. documents: scoping, then page numbers
+        # 4. documents: list attributes, scoping, then page numbers
+        for _ in range(300):
+            if time.time() > deadline:
+                break
+            html = LS.gen_document(run.rng)
+            run.search_stats['evaluations'] += 1
+            try:
+                what = LS.list_clause(html)
+            except Exception as exc:  # noqa: BLE001
+                what = f'build raised {type(exc).__name__}: {exc}'
+            if what and add(what, {'meta': {'kind': 'lists', 'html': html}}, html):
+                return found
+            if what:
+                break
         for _ in range(400):
             if time.time() > deadline:
                 break
@@ -665,11 +849,10 @@ class C15(PropCheck):
 
     def finding_replays(self):
         return {
-            'range-auto-crash': finding_range_auto,
-            'extends-own-symbols-loses-sign': finding_extends_sign,
-            'extends-empty-symbols-index-error': finding_extends_empty_symbols,
             'page-fixpoint-oscillation': finding_oscillation,
-            'target-counter-pages-forward-crash': finding_forward_pages,
+            'counter-set-before-increment': finding_set_before_increment,
+            'li-value-nests-scope': finding_li_value_nests,
+            'ol-start-not-integer': finding_ol_start_not_integer,
             'target-text-open-target-empty': finding_open_target_text,
         }
 
@@ -686,30 +869,60 @@ def corpus_html(finding_id):
     return json.loads((CORPUS / 'C15' / f'{finding_id}.json').read_text())['html']
 
 
-def finding_range_auto():
-    """`range: auto` is stored as ('auto',) and unpacked as a (min, max) pair."""
+def all_texts(document):
+    """Texts of every TextBox, outside markers (absolute placeholders) included."""
+    from weasyprint.formatting_structure import boxes
+    return [box.text for page in document.pages for box in page._page_box.descendants(placeholders=True)
+            if isinstance(box, boxes.TextBox)]
+
+
+def fixed_range_auto():
+    """Repaired by 5be1d36 (`range: auto` was stored as ('auto',) and unpacked as a (min, max) pair).
+    -> what fails, or None."""
     html = corpus_html('range-auto-crash')
     try:
-        docs.render(html)
-    except ValueError:
-        return True
-    return False
+        texts = all_texts(docs.render(html))
+    except ValueError as exc:
+        return f'ValueError: {exc}'
+    return None if any(t.startswith('a.') for t in texts) else f'the marker of the first item is not "a. ": {texts}'
 
 
-def finding_extends_sign():
-    """An `extends` style with too few own symbols falls back to decimal with the abs()-ed value."""
+def fixed_extends_sign():
+    """Repaired by 1bdaf16 (an `extends` style with too few own symbols fell back to decimal with abs(value))."""
     html = corpus_html('extends-own-symbols-loses-sign')
     texts = [t for page in docs.page_texts(docs.render(html)) for t in page]
-    return '5' in texts and '-5' not in texts
+    return None if '-5' in texts else f'counter -5 prints {texts}'
 
 
-def finding_extends_empty_symbols():
+def fixed_extends_empty_symbols():
+    """Repaired by 1bdaf16 (numeric system: symbols[0] before the length test) and d71ddd0 (`symbols: ;`)."""
     html = corpus_html('extends-empty-symbols-index-error')
     try:
-        docs.render(html)
-    except IndexError:
-        return True
-    return False
+        texts = [t for page in docs.page_texts(docs.render(html)) for t in page]
+    except IndexError as exc:
+        return f'IndexError: {exc}'
+    return None if '0' in texts else f'counter 0 prints {texts}'
+
+
+def fixed_forward_pages():
+    """Repaired by da41776 (target-counter(attr(href), pages), target on a later page: `None >= 0`)."""
+    html = corpus_html('target-counter-pages-forward-crash')
+    try:
+        document = docs.render(html)
+    except TypeError as exc:
+        return f'TypeError: {exc}'
+    texts = all_texts(document)
+    printed = texts[texts.index('e') + 1] if 'e' in texts[:-1] else None
+    want = str(len(document.pages))
+    return None if printed == want else f'the link prints {printed!r}, the page count is {want}'
+
+
+FIXED_REPLAYS = {
+    'range-auto-crash': fixed_range_auto,
+    'extends-own-symbols-loses-sign': fixed_extends_sign,
+    'extends-empty-symbols-index-error': fixed_extends_empty_symbols,
+    'target-counter-pages-forward-crash': fixed_forward_pages,
+}
 
 
 def finding_oscillation():
@@ -722,14 +935,25 @@ def finding_oscillation():
     return bool(wrong) and len(passes) >= MAX_LOOPS
 
 
-def finding_forward_pages():
-    """target-counter(attr(href), pages) whose target lies on a later page: `None >= 0` in make_page."""
-    html = corpus_html('target-counter-pages-forward-crash')
-    try:
-        docs.render(html)
-    except TypeError:
-        return True
-    return False
+def generated_texts_of(finding_id):
+    """(kind, text) of the generated boxes of a corpus document (real UA sheet, presentational hints)."""
+    html, context, counter_style = LS.build(corpus_html(finding_id))
+    return D.impl_texts(html, context, counter_style)
+
+
+def finding_set_before_increment():
+    """update_counters applies counter-set before counter-increment (css-lists-3: reset, increment, set)."""
+    return [t for _, t in generated_texts_of('counter-set-before-increment')] == ['6 ']
+
+
+def finding_li_value_nests():
+    """<li value> is hinted as counter-reset: a nested list-item scope inside a flat list."""
+    return [t for _, t in generated_texts_of('li-value-nests-scope')] == ['1 ', '1.7 ', '1.8 ']
+
+
+def finding_ol_start_not_integer():
+    """<ol start="1.5"> / <ol start="abc"> number from 0: the raw attribute is pasted into the declaration."""
+    return [t for _, t in generated_texts_of('ol-start-not-integer')] == ['0. ', '1. ', '0. ']
 
 
 def finding_open_target_text():
@@ -743,30 +967,41 @@ PROP = C15()
 MANIFEST = {
     'design_ref': 'DESIGN.md §4 C15',
     'technique': 'Lean 4 theorems over executable models of css/counters.py (render_value, render_marker, '
-                 'resolve_counter), the @counter-style descriptor validators and rule registration, build.py counter '
-                 'scoping, target-counter / target-text evaluation order, TargetCollector.cache_target_page_counters '
-                 'and the counter section of make_page, the layout_document re-pagination loop; the UA counter-style '
-                 'table and the first-letter punctuation table are regenerated from the source each run; exact '
-                 'executable correspondence with the real functions (every predefined style x -50..5000, random '
-                 '@counter-style sheets and token soup through the real validators, generated DOMs, recorded '
-                 'make_page calls of generated tables of contents, direct calls of the TargetCollector)',
+                 'resolve_counter), the @counter-style descriptor validators, preprocess_descriptors and rule '
+                 'registration, build.py counter scoping, the ol/li presentational hints of find_style_attributes with '
+                 'the counter() property validator and the cascade of the counter properties on list elements, '
+                 'target-counter / target-text evaluation order, TargetCollector.cache_target_page_counters and the '
+                 'counter section of make_page, the layout_document re-pagination loop; the UA counter-style table, '
+                 'the first-letter punctuation table and the hint table (AST of find_style_attributes, constant parts '
+                 'through the real validators; UA counter declarations of list elements) are regenerated from the '
+                 'source each run; exact executable correspondence with the real functions (every predefined style '
+                 'x -50..5000, random @counter-style sheets and token soup through the real validators, a systematic '
+                 'system x negative x pad grid, generated DOMs, generated list documents whose RAW start/value '
+                 'attributes go to the model, recorded make_page calls of generated tables of contents with forward and '
+                 'backward target-counter(page | pages), direct calls of the TargetCollector); the corpus inputs of '
+                 'repaired findings run first as regression cases',
     'text': 'Unbounded theorems: numeric and alphabetic systems are inverted by positional decoding, cyclic/fixed/'
             'symbolic formulas, additive greedy sum / order, out-of-range and unrepresentable values go to the '
             'fallback style with the original value, fallback and extends chains terminate on every table whose '
             'decimal is total, pad/negative length laws, marker = prefix + value + suffix; what the descriptor '
-            'validators accept is what render_value can read (descending additive weights, ordered ranges, enough '
-            'symbols for every registered non-extends style: step 3 never raises) except range:auto; the stack machine '
+            'validators accept is what render_value can read (descending additive weights, ordered ranges incl. '
+            'range:auto, enough symbols for every registered non-extends style: steps 2-3 never raise; collecting '
+            'the descriptors of a rule never raises); too few symbols fall back to decimal with the original value; '
+            '<ol start=s> makes its items count s, s+1, … for every integer s (0 and negatives included) and <li '
+            'value=v> prints v; the stack machine '
             'of update_counters / element_to_box produces exactly the texts of a reference semantics (frames) for '
             'every element tree, counters() lists scopes outermost first, a target snapshot is the state after '
             '::before and is never replaced, list items count start+1, start+2, … independently of nested lists; '
             'cache_target_page_counters flags or marks pending every box printing a changed page counter, a pending '
-            'box is flagged when its page is made; the re-pagination loop makes at most max_loops passes and, when '
+            'box is flagged when its page is made; step 3 of the counter section never raises (forward references '
+            'included) and marks the page of every known pages-target; the re-pagination loop makes at most max_loops passes and, when '
             'it leaves by its break with sound flags, every printed page number equals the page of its target.',
     'note': 'Trusted: Lean kernel, the extractors, the harness mapping computed styles / tokens / laid-out pages to '
-            'the abstract inputs. Findings kept as _partial theorems + witnesses + corpus/C15: range:auto crashes '
-            'render_value; an extends style with too few own symbols prints |value|; extends + empty symbols raises '
-            'IndexError on 0; target-counter(…, pages) forward reference raises TypeError in make_page; target-text() '
-            'of the element itself or an ancestor prints nothing; a real document oscillates past max_loops=8 '
+            'the abstract inputs. Findings kept as witnesses + corpus/C15: update_counters applies counter-set before '
+            'counter-increment (css-lists-3 orders increment, then set); <li value> is hinted as counter-reset and '
+            'nests a list-item scope inside a flat list; <ol start> / <li value> that are not CSS integers (1.5, abc) '
+            'number from 0; target-text() of the element itself or an ancestor prints nothing; a real document '
+            'oscillates past max_loops=8 '
             '(Witness.C15.oscillation: reaching the page fix point is not provable). The link from the local flag '
             'theorems (C15Pages) to World.Sound of fixpoint_consistent goes through an abstract layout function and '
             'is sampled by the toc-labels correspondence, not proved.',
